@@ -210,8 +210,11 @@ pub fn jacobi_eigenvalue<T: DualNum<F> + Copy, F: Float>(
                     let h = d[q] - d[p];
                     let term = h.abs() + gapq;
 
-                    let t = if term == h.abs() {
-                        a[(p, q)] / h
+                    let t = if term.re() == h.abs().re() {
+                        // tan of the rotation angle, 2x / (1 + sqrt(1 + 4x^2)) with x = a_pq / h: equal to x
+                        // for floats in this branch, and exact in every derivative part for dual numbers
+                        let x = a[(p, q)] / h;
+                        x * F::from(2.0).unwrap() / ((x * x * F::from(4.0).unwrap() + F::one()).sqrt() + F::one())
                     } else {
                         let theta = h * F::from(0.5).unwrap() / a[(p, q)];
                         let mut t = (theta.abs() + (theta * theta + F::one()).sqrt()).recip();
